@@ -1,10 +1,86 @@
-(* C12 — discrete-time simulators follow Reed–Frost generations.
-   Only statements, each closed by [exact] of a lemma from Proofs/DiscreteP.v. *)
+(* C12 — discrete-time simulators follow generation-by-generation Reed–Frost dynamics.
+   Only statements, each closed by [exact] of a lemma from Proofs/DiscreteP.v, over the
+   definitions of Model/Discrete.v that are extracted and run against /repo. *)
 From EoNV Require Import Prelude Samp Graph Discrete DiscreteP.
+From Coq Require Import Permutation.
 
+(* ---- discrete_SIR = breadth-first search over the successful contacts ----
+   For EVERY transmission rule tt (used as the function of the contact T u v = tt u v 0:
+   without a recovery test every node is tested at age 0), every simple graph, duplicate-free
+   disjoint initial sets, tmin, tmax, return mode and iteration-order oracle:
+   the run returns; it makes exactly K steps where K is the first k with I_k empty or
+   tmin + k >= tmax; its rows are (tmin + k, |S_k|, |I_k|, R_k) for k <= K where I_k is
+   exactly the set of nodes at breadth-first distance k from the initially infected nodes in
+   the digraph {u -> v | v neighbour of u, T u v} with the initially recovered nodes removed;
+   S + I + R = N; the history of v (full data) has an I entry at tmin + k iff v is in I_k
+   and an R entry exactly one step later (C12_history_entries). *)
+Theorem C12_dsir_bfs : forall g tt pick ord i0 r0o tmin tmax full fuel,
+  let r0 := opt_list r0o in let T := T0 tt in
+  wf_inputb g i0 r0 = true -> perm_oracle ord -> (length (gnodes g) < fuel)%nat ->
+  exists K out,
+    first_stop g tt i0 r0 tmin tmax K /\
+    discrete_SIR g (det_rules tt pick) None ord (Some i0) r0o None tmin tmax full fuel = Ret out /\
+    so_rows (o_sim out) = l1_rows g tt i0 r0 tmin K /\
+    (if full then exists tr, so_full (o_sim out) = Some (mkFull (l1_hist g tt full i0 r0 tmin tmax K) tr)
+     else so_full (o_sim out) = None) /\
+    (forall k v, In v (Ig g T i0 r0 k) <-> bfs_dist g T i0 r0 v k) /\
+    (forall k, (lenZ (Sg g T i0 r0 k) + lenZ (Ig g T i0 r0 k) + Rg g tt i0 r0 k)%Z = order g).
+Proof. exact dsir_bfs. Qed.
+Print Assumptions C12_dsir_bfs.
+
+(* what l1_hist records for a node: I at step k+1 iff it is in generation k+1, R at step
+   k+1 iff it was in generation k (infectious for exactly one step); entries beyond the
+   horizon (next_time > tmax, possible only for non-integer horizons) are not recorded *)
+Theorem C12_history_entries : forall g tt full i0 r0 tmin tmax K v e,
+  In e (events_to g tt full i0 r0 tmin tmax K v) <->
+  exists k, (k < K)%nat /\ full && le_x (tq tmin (S k)) tmax = true /\
+    ((e = (tq tmin (S k), stR) /\ In v (Ig g (T0 tt) i0 r0 k)) \/
+     (e = (tq tmin (S k), stI) /\ In v (Ig g (T0 tt) i0 r0 (S k)))).
+Proof. exact events_spec. Qed.
+Print Assumptions C12_history_entries.
+
+Theorem C12_times : forall tmin k, tq tmin k == tmin + inject_Z (Z.of_nat k).
+Proof. exact tq_spec. Qed.
+Print Assumptions C12_times.
+
+(* rows and node histories do not depend on Python's set iteration order (also used by C18) *)
+Theorem C12_dsir_perm_indep : forall g tt pick ord1 ord2 i0 r0o tmin tmax full fuel1 fuel2,
+  wf_inputb g i0 (opt_list r0o) = true -> perm_oracle ord1 -> perm_oracle ord2 ->
+  (length (gnodes g) < fuel1)%nat -> (length (gnodes g) < fuel2)%nat ->
+  exists out1 out2,
+    discrete_SIR g (det_rules tt pick) None ord1 (Some i0) r0o None tmin tmax full fuel1 = Ret out1 /\
+    discrete_SIR g (det_rules tt pick) None ord2 (Some i0) r0o None tmin tmax full fuel2 = Ret out2 /\
+    so_rows (o_sim out1) = so_rows (o_sim out2) /\
+    option_map fd_hist (so_full (o_sim out1)) = option_map fd_hist (so_full (o_sim out2)).
+Proof. exact dsir_perm_indep. Qed.
+Print Assumptions C12_dsir_perm_indep.
+
+(* basic_discrete_SIR is discrete_SIR with the default rule and no recovery test *)
 Theorem C12_basic_forwards :
   forall g p ord i0 r0 rho tmin tmax full fuel,
     basic_discrete_SIR g p ord i0 r0 rho tmin tmax full fuel =
     discrete_SIR g (simple_rules p) None ord i0 r0 rho tmin tmax full fuel.
 Proof. exact basic_forwards. Qed.
 Print Assumptions C12_basic_forwards.
+
+(* ---- non-vacuity ---- *)
+(* path 0 - 1 - 2 - 3 plus the chord 0 - 2; contact 0->2 fails, node 3 initially recovered *)
+Definition ex_adj (u : node) : list node :=
+  match u with 0%N => [1; 2]%N | 1%N => [0; 2]%N | 2%N => [1; 3; 0]%N | 3%N => [2]%N | _ => [] end.
+Definition ex_g : graph := mkGraph [0; 1; 2; 3]%N ex_adj ex_adj false (fun _ _ => 1) (fun _ => 1) false false.
+Definition ex_tt (u v : node) (_ : nat) : bool := negb (N.eqb u 0 && N.eqb v 2).
+Definition ex_ord (k : nat) (l : list node) : list node := rev l.
+
+Example C12_ex_wf : wf_inputb ex_g [0%N] [3%N] = true.
+Proof. vm_compute. reflexivity. Qed.
+Example C12_ex_ord : perm_oracle ex_ord.
+Proof. intros k l. unfold ex_ord. apply Permutation_sym. apply Permutation_rev. Qed.
+(* node 2 is reached through node 1 at distance 2 although it is a neighbour of node 0 *)
+Example C12_ex_run :
+  exists out, discrete_SIR ex_g (det_rules ex_tt (fun _ _ => O)) None ex_ord (Some [0%N]) (Some [3%N]) None 0 None true 5 = Ret out /\
+    map snd (so_rows (o_sim out)) = [[2; 1; 1]; [1; 1; 2]; [0; 1; 3]; [0; 0; 4]]%Z /\
+    option_map (fun f => map snd (fd_trans f)) (so_full (o_sim out)) = Some [0; 1; 2]%N.
+Proof. eexists. split; [vm_compute; reflexivity|]. split; vm_compute; reflexivity. Qed.
+Print Assumptions C12_ex_wf.
+Print Assumptions C12_ex_ord.
+Print Assumptions C12_ex_run.
